@@ -38,6 +38,11 @@ type c20Scenario struct {
 	// the output the way syncer.newOutput / cmd/rdb.go do; Cfg.Policy is not used then
 	Via   string `json:"via,omitempty"`
 	Spell string `json:"spell,omitempty"`
+	// reply texts: "busy28" = a 2.8 target answers a RESTORE on an existing key with "ERR Target key name is
+	// busy." instead of BUSYKEY (same meaning, judged by the normal oracle); any other value is an error text
+	// that does NOT mean "key exists" and is sent once in place of the reply to the subject's RESTORE: the
+	// replay has to fail whatever the policy, with the pre-existing key untouched
+	Inject string `json:"inject,omitempty"`
 }
 
 // c20Intended lists the policies a spelling may legitimately stand for. config.go lower-cases the value and
@@ -213,8 +218,42 @@ func c20Exec(t *testing.T, scn c20Scenario, ch *mc.Chooser) mc.Result {
 				srv.Put(e.TargetDB, e.TargetKey, old)
 			}
 		}}
+		injected := false
+		if scn.Inject != "" {
+			hooks.BeforeReq = func(srv *redisd.Server, idx int, argv [][]byte) {
+				e := built.ByKey["subj"]
+				if e == nil || len(argv) < 2 || !strings.EqualFold(string(argv[0]), "restore") || string(argv[1]) != e.TargetKey {
+					return
+				}
+				hasReplace := false
+				for _, a := range argv[4:] {
+					if strings.EqualFold(string(a), "REPLACE") {
+						hasReplace = true
+					}
+				}
+				text := ""
+				if scn.Inject == "busy28" {
+					if !hasReplace && srv.Get(e.TargetDB, e.TargetKey) != nil {
+						text = "ERR Target key name is busy."
+					}
+				} else if !injected {
+					injected, text = true, scn.Inject
+				}
+				if text != "" {
+					pl := srv.PlanRef()
+					if pl.FailAt == nil {
+						pl.FailAt = map[int]string{}
+					}
+					pl.FailAt[srv.NumReqs()+1] = text
+				}
+			}
+		}
 		out := rdbRun(scn.rdbScenario, built, ch, hooks)
-		if scn.Via == "" {
+		if scn.Inject != "" && scn.Inject != "busy28" && injected {
+			// (when the policy's own existence probe skipped or refused the key no RESTORE was sent for
+			// it, nothing was injected and the normal oracle applies)
+			res = c20FaultOracle(scn, built, out, olds, bystander)
+		} else if scn.Via == "" {
 			res = c20Oracle(scn, built, out, olds, bystander)
 		} else {
 			// the execution has to satisfy the oracle of one of the policies the spelling may stand for
@@ -246,6 +285,38 @@ func c20Exec(t *testing.T, scn c20Scenario, ch *mc.Chooser) mc.Result {
 		return mc.Result{Verdict: "machinery", Clause: "bubble: " + msg}
 	}
 	return res
+}
+
+// c20FaultOracle: the target answered the subject's RESTORE with an error that does not mean "key exists".
+func c20FaultOracle(scn c20Scenario, built *rdbBuilt, out *rdbOutcome, olds map[string]*redisd.Value, bystander *redisd.Value) mc.Result {
+	srv := out.Srv
+	execLog := srv.ExecLog()
+	logStr := rdbReqStrings(execLog)
+	mode := "plain"
+	if scn.Cfg.Bisync {
+		mode = "bisync"
+	}
+	detail := map[string]interface{}{"target_log": rdbTail(logStr, 30), "send_error": fmt.Sprint(out.Err), "policy": scn.Cfg.policy(), "injected": scn.Inject}
+	if !out.Ended {
+		return mc.Violation("replay did not finish", "C20:target-error:"+mode+":hang", detail)
+	}
+	if out.Err == nil {
+		return mc.Violation("the target refused the RESTORE with an error that does not mean 'key exists', yet the replay reports success", "C20:target-error:"+mode+":swallowed", detail)
+	}
+	if rdbCpWritten(execLog) {
+		return mc.Violation("the replay failed but the snapshot offset was recorded", "C20:target-error:"+mode+":checkpoint", detail)
+	}
+	e := built.ByKey["subj"]
+	if old, ok := olds["subj"]; ok && e != nil {
+		if got := srv.Get(e.TargetDB, e.TargetKey); c20State(got) != c20State(old) {
+			detail["before"], detail["after"] = c20State(old), c20State(got)
+			return mc.Violation("the pre-existing key was changed although its RESTORE was refused", "C20:target-error:"+mode+":modified", detail)
+		}
+	}
+	if got := srv.Get(0, c20Bystander); c20State(got) != c20State(bystander) {
+		return mc.Violation("a target key the snapshot does not contain was touched", "C20:target-error:"+mode+":bystander", detail)
+	}
+	return mc.OK(mc.Hash(logStr...), true, out.Events)
 }
 
 // c20Oracle judges one execution; signatures of the embedded full-sync oracle are cut
@@ -484,6 +555,28 @@ func c20Enumerate(tier string, f func(c20Scenario)) {
 			}
 		}
 		emitKey(c20Subject{"chunk/h/4", ref.RDBEnc{Kind: "table"}, 9}, "chunked", 64, key)
+	}
+	// reply-text family: what the target answers to the subject's RESTORE
+	for _, inject := range []string{"busy28", "BUSY Redis is busy running a script. You can only call SCRIPT KILL or SHUTDOWN NOSAVE.", "LOADING Redis is loading the dataset in memory", "BUSYGROUP Consumer Group name already exists"} {
+		for _, sub := range []c20Subject{{"string/short", ref.RDBEnc{Kind: "raw"}, 9}, {"hash/small", ref.RDBEnc{Kind: "listpack"}, 10}} {
+			for _, policy := range []string{"replace", "ignore", "error"} {
+				for _, bi := range []bool{false, true} {
+					for _, sp := range []prior{{"", false}, {"same", false}, {"other", true}} {
+						if inject == "busy28" && sp.kind == "" {
+							continue
+						}
+						cfg := rdbCfg{Restore: true, BulkLen: c03BigBulk, Parallel: 1, DbMode: "id", Resume: true, Bisync: bi, Policy: policy}
+						subj := rdbKeySpec{DB: 0, Key: "subj", Case: sub.Case, Enc: sub.Enc, Idle: -1, Freq: -1}
+						comp := rdbKeySpec{DB: 0, Key: "comp", Case: "string/short", Enc: ref.RDBEnc{Kind: "raw"}, Idle: -1, Freq: -1}
+						s := c20Scenario{rdbScenario: rdbScenario{Keys: []rdbKeySpec{subj, comp}, Version: sub.Version, Aux: true, Cfg: cfg}, Path: "restore", Inject: inject}
+						if sp.kind != "" {
+							s.Pre = []c20Pre{{Key: "subj", Kind: sp.kind, TTL: sp.ttl}}
+						}
+						f(s)
+					}
+				}
+			}
+		}
 	}
 	// configuration family: the policy as a user writes it, through the tool's own configuration loader
 	var spells []string
